@@ -1024,3 +1024,65 @@ def M15(vc):
     else:
         vc.ensure('failure_reraised', escaped is None and result is None)
     return ('run', with_loop, type(err).__name__, type(escaped).__name__)
+
+
+# =========================================================================== M16: the settings are plain records
+from pyvc.bounded import bounded as _bounded_m16
+
+
+@_bounded_m16('M16', targets=['kopf._cogs.configs.configuration.OperatorSettings', 'kopf._cogs.configs.configuration.PersistenceSettings',
+                              'kopf._cogs.configs.configuration.QueueingSettings', 'kopf._cogs.configs.configuration.WatchingSettings',
+                              'kopf._cogs.configs.configuration.NetworkingSettings', 'kopf._cogs.configs.configuration.BackgroundSettings',
+                              'kopf._cogs.configs.configuration.ProcessSettings', 'kopf._cogs.configs.configuration.PeeringSettings',
+                              'kopf._cogs.configs.configuration.PostingSettings', 'kopf._cogs.configs.configuration.ExecutionSettings'],
+              # bounded: registered for the properties claimed at level `other` only (the settings feed every property)
+              props=['C02', 'C03', 'C04', 'C05', 'C06', 'C08', 'C13', 'C14', 'C15', 'C16', 'C17', 'C18', 'C19', 'C20'],
+              clauses=['what_is_configured_is_what_is_read', 'one_settings_object_per_stanza'],
+              universe='every dataclass field of every settings stanza reachable from OperatorSettings() whose annotation is a number, bool, '
+                       'string or Optional of these: numbers {0, 0.5, 1, 59.5, 61, 3600, 1e6}, booleans, strings {"", "x"}, None where '
+                       'Optional; assigned in a startup handler\'s way (settings.<stanza>.<field> = value) and read back')
+def M16(b):
+    """
+    BOUNDED: docs/configuration.rst has every setting configured by plain assignment in a startup handler, and every property
+    is quantified "for every setting": the value the framework reads is the value the user assigned -- no clamping, rounding,
+    defaulting of falsy values, type change -- and the stanza objects are stable (the object configured is the object read).
+    (The few documented derived settings -- PeeringSettings.namespaced <-> clusterwide -- are properties, not fields: M10.)
+    """
+    import dataclasses, typing
+    from kopf._cogs.configs import configuration
+    settings = configuration.OperatorSettings()
+    stanzas = [(f.name, getattr(settings, f.name)) for f in dataclasses.fields(settings) if dataclasses.is_dataclass(getattr(settings, f.name))]
+    for sname, stanza in stanzas:
+        b.case(key=(sname, 'identity'))
+        b.check('one_settings_object_per_stanza', getattr(settings, sname) is stanza, dict(stanza=sname))
+        for f in dataclasses.fields(stanza):
+            ann = str(f.type)
+            simple = any(t in ann for t in ('float', 'int', 'bool', 'str')) and not any(t in ann for t in ('Iterable', 'Collection', 'Sequence', 'Callable', 'Storage', 'Enum', 'Mode', 'Level'))
+            if not simple:
+                continue
+            values = []
+            if 'float' in ann:
+                values += [0.0, 0.5, 1.0, 59.5, 61.0, 3600.0, 1e6]
+            if 'int' in ann and 'float' not in ann:
+                values += [0, 1, 61, 10**6]
+            if 'bool' in ann:
+                values += [True, False]
+            if 'str' in ann:
+                values += ['', 'x']
+            if 'None' in ann or 'Optional' in ann:
+                values += [None]
+            before = getattr(stanza, f.name)
+            for v in values:
+                b.case(key=(sname, f.name, repr(v)))
+                try:
+                    setattr(stanza, f.name, v)
+                    got = getattr(stanza, f.name)
+                    ok = type(got) is type(v) and got == v
+                    w = dict(setting=f'{sname}.{f.name}', assigned=repr(v), read=repr(got))
+                except Exception as e:      # a documented validation may refuse a value; it must not alter one silently
+                    ok, w = True, dict(setting=f'{sname}.{f.name}', assigned=repr(v), refused=repr(e))
+                b.check('what_is_configured_is_what_is_read', ok, w)
+            try:
+                setattr(stanza, f.name, before)
+            except Exception:
+                pass
